@@ -58,8 +58,8 @@ def eq_fields(shape, assign, form, carrier, names=NAMES):
     """assign: tuple over {'n','i','m'} ; returns (fields, generics)"""
     fields, generics = [], []
     for i, a in enumerate(assign):
-        sem = {"ignore": a == "i", "method": EQ_METHODS[i % 2] if a == "m" else None}
-        if a == "m":
+        sem = {"ignore": a in "ib", "method": EQ_METHODS[i % 2] if a in "mb" else None}
+        if a in "mb":
             ty = "u8"
         else:
             ty = "T%d" % len(generics)
@@ -159,8 +159,8 @@ PORD_TYS = ["crate::m::Inc", "u8", "i8", "u16"]
 
 def ord_field(name, a, rank, md, carrier, form, generics, i):
     meths = ["crate::m::pcmp_a", "crate::m::pcmp_b"] if md == "po" else ["crate::m::cmp_a", "crate::m::cmp_b"]
-    sem = {"ignore": a == "i", "method": meths[i % 2] if a == "m" else None, "rank": rank}
-    if a == "m":
+    sem = {"ignore": a in "ib", "method": meths[i % 2] if a in "mb" else None, "rank": rank}
+    if a in "mb":
         ty = "u8"
     else:
         ty = "T%d" % len(generics)
@@ -327,8 +327,8 @@ HASH_METHODS = ["crate::m::hash_a", "crate::m::hash_b"]
 
 
 def hash_field(name, a, form, i, rot):
-    sem = {"ignore": a == "i", "method": HASH_METHODS[i % 2] if a == "m" else None}
-    ty = "u8" if a == "m" else HASH_TYS[(i + rot) % len(HASH_TYS)]
+    sem = {"ignore": a in "ib", "method": HASH_METHODS[i % 2] if a in "mb" else None}
+    ty = "u8" if a in "mb" else HASH_TYS[(i + rot) % len(HASH_TYS)]
     sp = spell_field("Hash", sem, form)
     return Field(name, ty, attrs=[sp] if sp else [], hash=sem)
 
@@ -511,6 +511,10 @@ DEF_LITS = [("u8",            "7",           "7u8",                         True
             ("&'static str",  '"hi"',        '"hi"',                        False),
             ("String",        '"hi"',        'String::from("hi")',          False),
             ("u16",           "0x1F",        "31u16",                       True),
+            ("crate::m::Off", "-9",          "-9i64",                       True),    # type alias: not spelled as a primitive -> Into, sign must survive
+            ("crate::m::Off", "9",           "9i64",                        True),
+            ("crate::m::Flt", "-2.5",        "-2.5f64",                     False),
+            ("crate::m::Flt", "3",           "3.0f64",                      False),
             ("i8",            "-128",        "-128i8",                      True),
             ]
 DEF_LITS = [l for l in DEF_LITS if l[2] is not None and not (l[0] == "f64" and l[1] == "2.5f32")]
@@ -1466,6 +1470,51 @@ def wide(prop):
         k[0] += 1
         return "pw%03d" % k[0]
     LONG = ["a", "b", "c", "d", "e", "f", "g"]
+    # a field that is ignored AND carries a method: ignore wins, the method must never run
+    BOTH = [("b",), ("n", "b"), ("b", "n"), ("n", "b", "n"), ("m", "b", "i"), ("b", "b"), ("n", "n", "b")]
+    if prop == "C02":
+        for assign in BOTH:
+            for shape in ("named", "tuple"):
+                fields, generics = eq_fields(shape, assign, k[0], "PartialEq", LONG)
+                out.append(mk_struct(pid(), shape, fields, ["PartialEq"], {"PartialEq"}, generics, note="ignore+method struct %s eq=%s" % (shape, "".join(assign))))
+        for assign in BOTH[1:5]:
+            generics = []
+            vs = []
+            for vi, kind in enumerate(("named", "tuple")):
+                fs, g2 = eq_fields(kind, assign, k[0] + vi, "PartialEq", LONG)
+                for f in fs:
+                    if f.ty.startswith("T"):
+                        f.ty = "T0"
+                vs.append(Variant("V%d" % vi, kind, fs))
+            out.append(Program(pid(), "enum", "E", vs, ["PartialEq"], generics=["T0"] if any(f.ty == "T0" for v in vs for f in v.fields) else [], inst={"T0": "u8"},
+                               focus={"PartialEq"}, note="ignore+method enum eq=%s" % "".join(assign)))
+    if prop == "C03":
+        for assign in BOTH:
+            for shape in ("named", "tuple"):
+                for md in ("both", "po"):
+                    generics = []
+                    fields = [ord_field(LONG[i] if shape == "named" else None, a, None, md, "PartialOrd" if md == "po" else "Ord", k[0] + i, generics, i) for i, a in enumerate(assign)]
+                    out.append(ord_program(pid(), "struct", "S", [Variant(None, shape, fields)], md, generics, k[0], "ignore+method struct %s ord=%s mode=%s" % (shape, "".join(assign), md)))
+        for assign in BOTH[1:5]:
+            for md in ("both", "po"):
+                vs = []
+                for vi, kind in enumerate(("named", "tuple")):
+                    g2 = []
+                    fs = [ord_field(LONG[i] if kind == "named" else None, a, None, md, "PartialOrd" if md == "po" else "Ord", k[0] + i, g2, i) for i, a in enumerate(assign)]
+                    for f in fs:
+                        if f.ty.startswith("T"):
+                            f.ty = "T0"
+                    vs.append(Variant("V%d" % vi, kind, fs))
+                gen = ["T0"] if any(f.ty == "T0" for v in vs for f in v.fields) else []
+                out.append(ord_program(pid(), "enum", "E", vs, md, gen, k[0], "ignore+method enum ord=%s mode=%s" % ("".join(assign), md)))
+    if prop == "C05":
+        for assign in BOTH:
+            for shape in ("named", "tuple"):
+                fields = [hash_field(LONG[i] if shape == "named" else None, a, k[0] + i, i, k[0]) for i, a in enumerate(assign)]
+                out.append(Program(pid(), "struct", "S", [Variant(None, shape, fields)], ["Hash"], focus={"Hash"}, note="ignore+method struct %s hash=%s" % (shape, "".join(assign))))
+        for assign in BOTH[1:5]:
+            vs = [Variant("V%d" % vi, kind, [hash_field(LONG[i] if kind == "named" else None, a, k[0] + i + vi, i, 0) for i, a in enumerate(assign)]) for vi, kind in enumerate(("named", "tuple"))]
+            out.append(Program(pid(), "enum", "E", vs, ["Hash"], focus={"Hash"}, note="ignore+method enum hash=%s" % "".join(assign)))
     if prop == "C02":
         for n in (4, 5, 6):
             for shape in ("named", "tuple"):
